@@ -195,9 +195,10 @@ def run_check(prop, rules, tier, model, repo, explanation, assumptions, seed=0, 
         'wall_s': round(wall, 3),
         'violations': len(violations),
     }
-    os.makedirs(os.path.join(VERIF, 'evidence'), exist_ok=True)
-    with open(os.path.join(VERIF, 'evidence', '%s.json' % prop), 'w') as f:
-        json.dump(evidence, f, indent=1, sort_keys=True)
+    if not os.environ.get('VERIF_NO_EVIDENCE'):
+        os.makedirs(os.path.join(VERIF, 'evidence'), exist_ok=True)
+        with open(os.path.join(VERIF, 'evidence', '%s.json' % prop), 'w') as f:
+            json.dump(evidence, f, indent=1, sort_keys=True)
     print('%s tier=%s: %d obligations, %d discharged, %d known finding(s), %d violation(s), %.2fs%s' % (
         prop, tier, n_ob, n_ok, len(seen), len(violations), wall, '' if status != 2 else ' [ANALYSIS ERROR]'))
     return status
